@@ -9,9 +9,9 @@ import (
 
 // Generator forms (C11): the same body as function, method (value / pointer
 // receiver), generic function, function literal, nested function literal.
-const NForms = 6
+const NForms = 8
 
-var formNames = [NForms]string{"func", "method-value-recv", "method-pointer-recv", "generic-func", "func-literal", "nested-literal"}
+var formNames = [NForms]string{"func", "method-value-recv", "method-pointer-recv", "generic-func", "func-literal", "nested-literal", "named-result-bare-return", "method-of-generic-type"}
 
 const stdHeader = "func §gen() ITER[int] GEN[int]{\n"
 const stdCall = "it := §gen(); return it"
@@ -45,6 +45,14 @@ func WithForm(p *e1.Program, form int) *e1.Program {
 	case 5:
 		ind := strings.ReplaceAll(body, "\n", "\n\t")
 		text = pre + stdHeader + "\tYFROM(func() ITER[int] GEN[int]{\n\t" + strings.TrimRight(ind, "\t") + "\t}GEN())\n\tRETNIL\n}GEN\n" + post
+	case 6:
+		// named blank result and bare `return` (the form the repository's own corpus uses)
+		if strings.Contains(body, "GEN[") {
+			return nil
+		}
+		text = pre + "func §gen() (_ ITER[int]) GEN[int]{\n" + strings.ReplaceAll(body, "RETNIL", "RETBARE") + "}GEN\n" + post
+	case 7:
+		text = pre + "type §gbox[GT9 any] struct{ v GT9 }\n\nfunc (r *§gbox[GT9]) gen() ITER[int] GEN[int]{\n" + body + "}GEN\n" + strings.Replace(post, stdCall, "it := (&§gbox[string]{v: \"s\"}).gen(); return it", 1)
 	default:
 		return nil
 	}
